@@ -3,9 +3,9 @@ package main
 // Case generators. Every random choice derives from one PRNG state.
 
 import (
-	"math/big"
 	"encoding/hex"
 	"fmt"
+	"math/big"
 	"strconv"
 	"strings"
 )
